@@ -136,6 +136,12 @@ try:
 except ImportError:
     pass
 
+try:
+    import libhost_c08  # C08: LRO futures used as objects (programs of metadata/done/cancel/result), name-keyed GetOperation server
+    OPS.update(libhost_c08.OPS)
+except ImportError:
+    pass
+
 
 def main():
     ops = json.loads(sys.stdin.read())
